@@ -211,12 +211,7 @@ func (e *Engine) appendSlice(s *State, a, b *SliceV, ty types.Type) Value {
 		// grow: new object; capacity = need rounded like a doubling allocator when concrete
 		var ncap *Term
 		if need.IsConst() && a.Cap.IsConst() {
-			nc := a.Cap.Val * 2
-			if nc < need.Val {
-				nc = need.Val
-			}
-			nc = (nc + 7) &^ 7
-			ncap = c.BV(nc, 64)
+			ncap = c.BV(goGrowCap(a.Cap.Val, need.Val), 64)
 		} else {
 			ncap = need
 		}
@@ -294,4 +289,35 @@ func (e *Engine) allowInterp(fn *ssa.Function) bool {
 		}
 	}
 	return false
+}
+
+// goGrowCap: capacity of a byte slice after append has to reallocate, as the Go runtime of this toolchain computes
+// it (runtime.nextslicecap + roundupsize for element size 1). The language does not fix it, but code that hands
+// append-grown buffers to a size-classed pool depends on it.
+var goSizeClasses = []uint64{8, 16, 24, 32, 48, 64, 80, 96, 112, 128, 144, 160, 176, 192, 208, 224, 240, 256, 288, 320, 352, 384, 416, 448, 480, 512,
+	576, 640, 704, 768, 896, 1024, 1152, 1280, 1408, 1536, 1792, 2048, 2304, 2688, 3072, 3200, 3456, 4096, 4864, 5376, 6144, 6528, 6784, 6912, 8192,
+	9472, 9728, 10240, 10880, 12288, 13568, 14336, 16384, 18432, 19072, 20480, 21760, 24576, 27264, 28672, 32768}
+
+func goGrowCap(oldCap, needed uint64) uint64 {
+	newcap := oldCap
+	if needed > 2*oldCap {
+		newcap = needed
+	} else if oldCap < 256 {
+		newcap = 2 * oldCap
+	} else {
+		for newcap < needed {
+			newcap += (newcap + 3*256) >> 2
+		}
+	}
+	if newcap == 0 {
+		return 0
+	}
+	if newcap <= 32768 {
+		for _, c := range goSizeClasses {
+			if c >= newcap {
+				return c
+			}
+		}
+	}
+	return (newcap + 8191) &^ 8191
 }
